@@ -158,6 +158,9 @@ def base_name(sn: str) -> str:
     return sn
 
 
+_SENTINEL = object()
+
+
 class Violation(Exception):
 
     def __init__(self, inv: str, detail: Dict[str, Any]):
@@ -213,6 +216,17 @@ def check_list(nil, model: List[Any], identity: bool, li: int) -> None:
             raise Violation("name-not-derived-from-short-name", {"list": li, "name": k, "short_name": v.short_name})
         if hasattr(cls, k):
             raise Violation("name-shadows-class-attribute", {"list": li, "name": k})
+    # names that are NOT registered refer to nothing - in particular not to the list's own members
+    for probe in ("sort", "keys", "append", "_item_dict", "clear", "get", "zz_absent", "a"):
+        if probe in keys:
+            continue
+        if nil.get(probe, _SENTINEL) is not _SENTINEL:
+            raise Violation("unregistered-name-resolves", {"list": li, "name": probe, "via": "get"})
+        try:
+            nil[probe]
+            raise Violation("unregistered-name-resolves", {"list": li, "name": probe, "via": "getitem"})
+        except KeyError:
+            pass
     for meth in ("append", "insert", "extend", "remove", "pop", "clear", "copy", "keys", "values", "items", "get"):
         m = getattr(nil, meth)
         if not callable(m) or getattr(m, "__self__", None) is not nil:
